@@ -242,6 +242,67 @@ Section Gen.
     Qed.
   End Plain.
 
+
+  (* -- the same without a COUNT argument (count 0): the cursor is empty only after an empty page -- *)
+
+  Definition next_of0 (pg : list bytes) : bytes :=
+    match last_opt pg with Some x => x | None => [] end.
+
+  Lemma firstn_length_firstn {A} (l : list A) k : firstn (length (firstn k l)) l = firstn k l.
+  Proof.
+    rewrite firstn_length. destruct (Nat.le_gt_cases k (length l)) as [H|H].
+    - now rewrite Nat.min_l by exact H.
+    - rewrite Nat.min_r by lia. now rewrite firstn_all, firstn_all2 by lia.
+  Qed.
+
+  Section Plain0.
+    Variable call : bytes -> outcome page.
+    Hypothesis call_spec : forall c, call c = Ok (firstn n (stream c), next_of0 (firstn n (stream c))).
+
+    Theorem iterate_plain0 : forall fuel c,
+      (length (stream c) / n + 1 < fuel)%nat ->
+      exists pages,
+        iterate fuel call c = (pages, Done) /\
+        concat (map fst pages) = stream c /\
+        (length pages <= length (stream c) / n + 2)%nat.
+    Proof.
+      induction fuel as [|f IH]; intros c Hfuel; [lia|].
+      cbn [iterate]. rewrite call_spec. unfold next_of0.
+      destruct (stream c) as [|s0 S0] eqn:ES.
+      - rewrite firstn_nil. cbn [last_opt]. eexists. split; [reflexivity|]. split; [reflexivity|]. cbn [length]. lia.
+      - destruct (last_opt_some (firstn n (s0 :: S0))) as [x Hx];
+          [apply firstn_nonempty; [exact n_pos|discriminate]|].
+        rewrite Hx. rewrite <- ES in *.
+        assert (x <> []) as Hxne.
+        { pose proof (last_opt_in _ _ Hx) as Hin.
+          assert (In x (stream c)) as Hin2.
+          { rewrite <- (firstn_skipn n (stream c)). apply in_or_app. now left. }
+          apply stream_in in Hin2. destruct Hin2 as [Hin2 _].
+          rewrite Forall_forall in NL_nonempty. now apply NL_nonempty. }
+        assert (stream x = skipn (length (firstn n (stream c))) (stream c)) as Hchain.
+        { apply stream_chain; [now rewrite firstn_length_firstn|rewrite firstn_length; lia]. }
+        destruct x as [|b x']; [congruence|].
+        destruct (Nat.le_gt_cases n (length (stream c))) as [Hlen|Hlen].
+        + (* a full page *)
+          rewrite firstn_length, Nat.min_l in Hchain by exact Hlen.
+          assert (length (stream c) = n + length (stream (b :: x')))%nat as Hsplit.
+          { rewrite Hchain, skipn_length. lia. }
+          assert (length (stream c) / n = 1 + length (stream (b :: x')) / n)%nat as Hdiv.
+          { rewrite Hsplit. replace (n + length (stream (b :: x')))%nat with (1 * n + length (stream (b :: x')))%nat by lia.
+            rewrite Nat.div_add_l by lia. reflexivity. }
+          destruct (IH (b :: x')) as [pages [Hit [Hcat Hcnt]]]; [lia|].
+          rewrite Hit. eexists. split; [reflexivity|]. split.
+          * cbn [map concat fst]. rewrite Hcat, Hchain. apply firstn_skipn.
+          * cbn [length]. lia.
+        + (* the rest of the stream, shorter than a page: one more call returns the empty page *)
+          rewrite firstn_all2 in * by lia. rewrite skipn_all in Hchain.
+          destruct f as [|f']; [lia|]. cbn [iterate]. rewrite call_spec, Hchain, firstn_nil. cbn [last_opt next_of0].
+          eexists. split; [reflexivity|]. split.
+          * cbn. now rewrite app_nil_r.
+          * cbn [length]. lia.
+    Qed.
+  End Plain0.
+
   (* -- keys of a table: the store streams the whole type, the node cuts at the table end -- *)
 
   Section Cut.
@@ -379,6 +440,97 @@ Section Gen.
           eexists. split; [reflexivity|]. split.
           * cbn. apply app_nil_r.
           * rewrite Hdiv. reflexivity.
+    Qed.
+
+    (* without a COUNT argument *)
+    Definition node_post0 (pg : list bytes) : page :=
+      match last_opt pg with
+      | None => ([], [])
+      | Some x => if inT x then (pg, rk x) else (cut pg, [])
+      end.
+
+    Variable call0 : bytes -> outcome page.
+    Hypothesis call0_spec : forall c, call0 c = Ok (node_post0 (firstn n (stream (wrap c)))).
+
+    Theorem iterate_cut0 : forall fuel c,
+      (length (filter inT (stream (wrap c))) / n + 1 < fuel)%nat ->
+      exists pages,
+        iterate fuel call0 c = (pages, Done) /\
+        concat (map fst pages) = filter inT (stream (wrap c)) /\
+        (length pages <= length (filter inT (stream (wrap c))) / n + 2)%nat.
+    Proof.
+      induction fuel as [|f IH]; intros c Hfuel; [lia|].
+      cbn [iterate]. rewrite call0_spec. unfold node_post0.
+      destruct (stream_shape c) as [A [B [HS [HA HB]]]].
+      rewrite HS in *. rewrite (filter_shape A B HA HB) in *.
+      destruct (last_opt (firstn n (A ++ B))) as [x|] eqn:Hl.
+      2:{ assert (A ++ B = []) as Hnil.
+        { destruct (A ++ B) eqn:E; [reflexivity|]. exfalso.
+          destruct (last_opt_some (firstn n (b :: l))) as [y Hy]; [apply firstn_nonempty; [exact n_pos|discriminate]|].
+          congruence. }
+        apply app_eq_nil in Hnil. destruct Hnil as [-> ->].
+        eexists. split; [reflexivity|]. split; [reflexivity|]. cbn [length]. lia. }
+      destruct (Nat.le_gt_cases n (length A)) as [Hn|Hn].
+      - assert (firstn n (A ++ B) = firstn n A) as Hpg.
+        { rewrite firstn_app. replace (n - length A)%nat with 0%nat by lia. cbn [firstn]. apply app_nil_r. }
+        rewrite Hpg in *.
+        assert (In x A) as HxA.
+        { apply last_opt_in in Hl. rewrite <- (firstn_skipn n A). apply in_or_app. now left. }
+        assert (inT x = true) as HTx by (rewrite Forall_forall in HA; now apply HA).
+        rewrite HTx.
+        assert (In x NL) as HxNL.
+        { assert (In x (stream (wrap c))) as H by (rewrite HS; apply in_or_app; now left).
+          now apply stream_in in H. }
+        pose proof (rk_nonempty x HxNL HTx) as Hrk.
+        assert (stream (wrap (rk x)) = skipn n (A ++ B)) as Hchain.
+        { rewrite wrap_rk by exact HTx. rewrite <- HS. apply stream_chain.
+          - rewrite HS, firstn_app. replace (n - length A)%nat with 0%nat by lia.
+            cbn [firstn]. rewrite app_nil_r. exact Hl.
+          - rewrite HS, app_length. lia. }
+        assert (filter inT (stream (wrap (rk x))) = skipn n A) as Hrest.
+        { rewrite Hchain, skipn_app. replace (n - length A)%nat with 0%nat by lia. cbn [skipn].
+          apply filter_shape; [|exact HB]. rewrite <- (firstn_skipn n A) in HA.
+          apply Forall_app in HA. tauto. }
+        assert (length A = n + length (skipn n A))%nat as Hsplit by (rewrite skipn_length; lia).
+        assert (length A / n = 1 + length (skipn n A) / n)%nat as Hdiv.
+        { rewrite Hsplit at 1. replace (n + length (skipn n A))%nat with (1 * n + length (skipn n A))%nat by lia.
+          rewrite Nat.div_add_l by lia. reflexivity. }
+        destruct (IH (rk x)) as [pages [Hit [Hcat Hcnt]]]; [rewrite Hrest; lia|].
+        destruct (rk x) as [|b0 r0] eqn:Erk; [congruence|].
+        rewrite Hit. eexists. split; [reflexivity|]. split.
+        + cbn [map concat fst]. rewrite Hcat, Hrest. apply firstn_skipn.
+        + cbn [length]. rewrite Hrest in Hcnt. lia.
+      - assert (firstn n (A ++ B) = A ++ firstn (n - length A) B) as Hpg.
+        { rewrite firstn_app. now rewrite (firstn_all2 A) by lia. }
+        rewrite Hpg in *.
+        destruct (firstn (n - length A) B) as [|b B'] eqn:EB.
+        + (* the table's rest, nothing behind it: one more call returns the empty page *)
+          assert (B = []) as ->.
+          { destruct B as [|b0 B0]; [reflexivity|]. destruct (n - length A)%nat eqn:En; [lia|discriminate]. }
+          rewrite app_nil_r in *.
+          assert (In x A) as HxA by (now apply last_opt_in in Hl).
+          assert (inT x = true) as HTx by (rewrite Forall_forall in HA; now apply HA).
+          rewrite HTx.
+          assert (In x NL) as HxNL.
+          { assert (In x (stream (wrap c))) as H by (rewrite HS; exact HxA). now apply stream_in in H. }
+          pose proof (rk_nonempty x HxNL HTx) as Hrk.
+          assert (stream (wrap (rk x)) = []) as Hchain.
+          { rewrite wrap_rk by exact HTx.
+            rewrite (stream_chain (wrap c) (length A) x); [rewrite HS; apply skipn_all|rewrite HS, firstn_all; exact Hl|rewrite HS; lia]. }
+          destruct (rk x) as [|b0 r0] eqn:Erk; [congruence|].
+          destruct f as [|f']; [lia|]. cbn [iterate]. rewrite call0_spec, Hchain, firstn_nil. cbn [last_opt].
+          eexists. split; [reflexivity|]. split.
+          * cbn. now rewrite app_nil_r.
+          * cbn [length]. lia.
+        + assert (Forall (fun x => inT x = false) (b :: B')) as HB'.
+          { rewrite <- EB. rewrite <- (firstn_skipn (n - length A) B) in HB. apply Forall_app in HB. tauto. }
+          rewrite last_opt_app in Hl by discriminate.
+          assert (inT x = false) as HTx.
+          { apply last_opt_in in Hl. rewrite Forall_forall in HB'. now apply HB'. }
+          rewrite HTx. rewrite (cut_shape A (b :: B') HA HB').
+          eexists. split; [reflexivity|]. split.
+          * cbn. apply app_nil_r.
+          * cbn [length]. lia.
     Qed.
   End Cut.
 End Gen.
